@@ -1566,7 +1566,7 @@ SET_VALUES = [("int", "0"), ("int", "-1"), ("int", str(2 ** 63 - 1)), ("str", "-
               # members of every JSON type, so that each typed get meets each stored type
               ("json", hx(b'{"a":2.75,"c":"s"}')), ("json", hx(b'{"a":true,"c":null}')), ("json", hx(b'{"a":{"b":1},"c":-3}')),
               ("json", hx(b"2.75")), ("json", hx(b"true")), ("json", hx(b'"s"')), ("json", hx(b"null")), ("json", hx(b"1e3"))]
-NAMES = [hx(b"a"), hx(b"c"), "-", "NULL"]
+NAMES = [hx(b"a"), hx(b"c"), "-", "NULL", hx(b"exp")]
 
 
 def setget_ops():
@@ -1638,6 +1638,32 @@ def setget_suite(world, pool, tier, rng):
             snap = PS.show_get("json", 0, m.d)
             metas.append((len(world.ops), {"kind": "setget", "op": "snapshot", "want": snap, "on": "builder-" + which}))
             world.op("bl 0 %sget json -" % which, tag="setget")
+            if (si + len(world.ops)) % 7 == 0:
+                # configuration calls of another kind in between (time offsets, iat switch, key, callback): the maps are what the
+                # set / del calls made them, nothing else writes them
+                cfgcall = ["offset exp 300", "offset nbf 5", "iat 1", "iat 0", "offset exp 0", "setcb getalg", "setcb -", "setkey 0"][(si + len(world.ops)) % 8]
+                world.op("bl 0 " + cfgcall, tag="cfg")
+                metas.append((len(world.ops), {"kind": "setget", "op": "snapshot after `%s`" % cfgcall, "want": snap, "on": "builder-" + which}))
+                world.op("bl 0 %sget json -" % which, tag="setget")
+    # the members that share a name with what the library writes itself (iat / nbf / exp, and typ / alg in the header) are the
+    # application's like any other: switching the library's own writing on or off does not touch what is stored
+    for which, names_ in (("c", (b"exp", b"nbf", b"iat")), ("h", (b"typ", b"alg"))):
+        for cfgcall in ("offset exp 300", "offset nbf 5", "iat 1", "iat 0", "offset exp 0", "offset nbf -1"):
+            world.op("bl 0 new", tag="cfg")
+            m = PS.PyMap()
+            for nm_ in names_:
+                op = ("set", "int", hx(nm_), "7", 1)
+                _py_apply(m, op)
+                world.op(_line("bl 0", which, op), tag="cfg")
+            world.op("bl 0 " + cfgcall, tag="cfg")
+            metas.append((len(world.ops), {"kind": "setget", "op": "snapshot after `%s` with own %s stored" % (cfgcall, "/".join(n.decode() for n in names_)),
+                                           "want": PS.show_get("json", 0, m.d), "on": "builder-" + which}))
+            world.op("bl 0 %sget json -" % which, tag="setget")
+            for nm_ in names_:
+                op = ("set", "int", hx(nm_), "8", 0)
+                want = _py_apply(m, op)
+                metas.append((len(world.ops), {"kind": "setget", "op": "non-replacing set of %s after `%s`" % (nm_.decode(), cfgcall), "want": want, "on": "builder-" + which}))
+                world.op(_line("bl 0", which, op), tag="setget")
     # values and whole maps of every size: one long string, one array / object whose text has that length, that many short
     # members; each read back typed, as JSON, and as the whole-object snapshot
     for zi, n in enumerate(sizes([1, 100, 200, 250, 300] + STD_SIZES + [8191, 8192, 8193, 30000], lo=1, hi=30000)):
